@@ -13,7 +13,7 @@ use std::collections::HashSet;
 use std::time::Duration;
 
 pub fn check(tier: Tier, seed: u64, replay: (Option<&str>, Option<&str>)) -> Vec<PartReport> {
-    crate::run_parts!(tier, seed, replay, [WirePart])
+    crate::run_parts!(tier, seed, replay, [WirePart, ReloadPart])
 }
 
 #[derive(Clone, Debug, Serialize, Deserialize, PartialEq)]
@@ -38,6 +38,9 @@ pub enum Act {
     /// COPY FROM STDIN that the server rejects at CopyDone, followed by a failing statement
     CopyFailThenErr,
     Sleep(u8),
+    /// (statement cache on) a named statement is prepared and used, then one batch closes it and binds it again: an error of
+    /// the client's own making, after which it may be disconnected - or stay, but then without a server
+    CloseThenBind,
 }
 
 #[derive(Clone, Debug, Serialize, Deserialize)]
@@ -73,6 +76,7 @@ fn act_strategy() -> BoxedStrategy<Act> {
         1 => Just(Act::LoneSync),
         1 => Just(Act::CopyFailThenErr),
         1 => (1u8..30).prop_map(Act::Sleep),
+        1 => Just(Act::CloseThenBind),
     ]
     .boxed()
 }
@@ -127,7 +131,7 @@ impl Part for WirePart {
         true
     }
     fn rule(&self) -> String {
-        "pool_size 1..4, clients pool_size..3*pool_size+1, both pool modes; per-client histories of generated transactions mixed with aborts (socket drop between transactions, inside a transaction, before a delayed reply, after part of a message), Terminate, statement errors, server closing mid-reply, lone Sync, failed COPY followed by a failing statement, plus 0..2 kills of all backend sessions; a separate class has a 60..200 ms connect_timeout (optionally checkout_failure_limit) so waiters time out; the effective connect_timeout is written at [general], pool or user level, with a decoy value (450 ms resp. 5 s) at the less specific levels that must not take effect. Oracle: live authenticated sessions per mock listener never exceed pool_size for > 300 ms; every request of a live client is answered (or refused with the pool error and the client stays usable); afterwards pool_size probe clients hold pool_size simultaneous transactions and SHOW POOLS/SERVERS report nothing active. Non-trivial = at least one abort/fault while a connection was held AND more clients than pool_size".into()
+        "pool_size 1..4, clients pool_size..3*pool_size+1, both pool modes; per-client histories of generated transactions mixed with aborts (socket drop between transactions, inside a transaction, before a delayed reply, after part of a message), Terminate, statement errors, server closing mid-reply, lone Sync, failed COPY followed by a failing statement, (statement cache on) a batch that closes a named statement and binds it again, plus 0..2 kills of all backend sessions; a separate class has a 60..200 ms connect_timeout (optionally checkout_failure_limit) so waiters time out; the effective connect_timeout is written at [general], pool or user level, with a decoy value (450 ms resp. 5 s) at the less specific levels that must not take effect. Oracle: live authenticated sessions per mock listener never exceed pool_size for > 300 ms; every request of a live client is answered (or refused with the pool error and the client stays usable); afterwards pool_size probe clients hold pool_size simultaneous transactions and SHOW POOLS/SERVERS report nothing active. Non-trivial = at least one abort/fault while a connection was held AND more clients than pool_size".into()
     }
     fn cases(&self, tier: Tier) -> u64 {
         tier.pick(1_200, 18_000)
@@ -313,6 +317,40 @@ async fn run_case(c: &Case, ctx: &mut WorkerCtx) -> Outcome {
                         reqs.push(Req::Simple(vec![s]));
                     }
                     Act::Sleep(ms) => tokio::time::sleep(Duration::from_millis(*ms as u64)).await,
+                    Act::CloseThenBind => {
+                        let name = format!("stmt_c{}", id);
+                        let t = cli.tag();
+                        let mut b = proto::parse(&name, &format!("{} SELECT v FROM t", t.render()), &[]);
+                        b.extend_from_slice(&proto::bind("", &name, &[], &[], &[]));
+                        b.extend_from_slice(&proto::execute("", 0));
+                        b.extend_from_slice(&proto::sync());
+                        cli.send(&b).await;
+                        let (m1, e1) = cli.read_until_ready(wire::T_REPLY).await;
+                        if !matches!(e1, ReadEnd::Ready(_)) || m1.iter().any(|x| x.code == b'E') {
+                            // (pool error in the timeout class, backend kill: nothing to build on)
+                            if !cli.is_open() {
+                                r.faulted = true;
+                                break 'acts;
+                            }
+                            continue 'acts;
+                        }
+                        let mut b = proto::close(b'S', &name);
+                        b.extend_from_slice(&proto::bind("", &name, &[], &[], &[]));
+                        b.extend_from_slice(&proto::execute("", 0));
+                        b.extend_from_slice(&proto::sync());
+                        cli.send(&b).await;
+                        let (_m2, e2) = cli.read_until_ready(wire::T_REPLY).await;
+                        match e2 {
+                            // told it is idle again: it goes on like any other client
+                            ReadEnd::Ready(_) => {}
+                            // disconnected for its own error
+                            ReadEnd::Closed => break 'acts,
+                            other => {
+                                r.stall = Some(format!("Close + Bind of the same statement in one batch ended {:?} (no answer)", other));
+                                break 'acts;
+                            }
+                        }
+                    }
                 }
                 for rq in &reqs {
                     let x = prog::run_req(&mut cli, rq, t0).await;
@@ -572,4 +610,221 @@ async fn admin_idle_check(env: &Env) -> Option<String> {
         }
         tokio::time::sleep(Duration::from_millis(50)).await;
     }
+}
+
+// ------------------------------------------------------------------------------ part "reload"
+// The bound also holds across a reload that does not touch the pool: its connections are all held, the file changes somewhere
+// else, more clients arrive.
+
+#[derive(Clone, Debug, Serialize, Deserialize)]
+pub struct ReloadCase {
+    pub pool_size: u8,
+    pub extra_clients: u8,
+    /// 0 = another pool's pool_size, 1 = [general] ban_time, 2 = a pool is added, 3 = identical file, 4 = another pool's password
+    /// (a change inside [pools.db] itself, e.g. to its second user, makes pgcat rebuild the pools of all its users and let the old
+    /// ones drain: whether old plus new connections may exceed pool_size meanwhile is not settled by the property and not generated)
+    pub change: u8,
+    pub sighup: bool,
+    pub workers: u8,
+    pub second_user: bool,
+}
+
+pub struct ReloadPart;
+
+impl Part for ReloadPart {
+    type Case = ReloadCase;
+    fn prop(&self) -> &'static str {
+        "C04"
+    }
+    fn name(&self) -> &'static str {
+        "reload"
+    }
+    fn wire(&self) -> bool {
+        true
+    }
+    fn rule(&self) -> String {
+        "pool db,u (pool_size 1..3) next to a pool 'other' (and optionally a second user of db): pool_size clients open a transaction each, then the configuration file changes somewhere else (other pool's pool_size or password, [general], a pool added, or nothing) and is reloaded by RELOAD or SIGHUP, then 1..3 more clients log in and send a statement. Oracle: for 450 ms the backend of db,u never has more than pool_size sessions and none of the newcomers' statements arrives; the open transactions go on on their connections and commit; then every newcomer is served; no session was opened on that backend after the reload; afterwards pool_size probes hold pool_size transactions and nothing is marked active. Non-trivial = the file really changed".into()
+    }
+    fn cases(&self, tier: Tier) -> u64 {
+        tier.pick(160, 2_400)
+    }
+    fn nontrivial_floor(&self) -> f64 {
+        0.3
+    }
+    fn strategy(&self, _tier: Tier) -> BoxedStrategy<ReloadCase> {
+        (1u8..=3, 1u8..=3, 0u8..6, prop::bool::weighted(0.3), prop_oneof![Just(1u8), Just(2u8), Just(4u8)], any::<bool>())
+            .prop_map(|(pool_size, extra_clients, change, sighup, workers, second_user)| ReloadCase { pool_size, extra_clients, change: change % 5, sighup, workers, second_user })
+            .boxed()
+    }
+    fn run(&self, c: &ReloadCase, ctx: &mut WorkerCtx) -> Outcome {
+        wire::run_async(run_reload(c, ctx))
+    }
+}
+
+fn reload_config(mocks: &[crate::mock::MockServer], c: &ReloadCase, after: bool) -> PgcatConfig {
+    let mut cfg = PgcatConfig::new();
+    cfg.set_general("worker_threads", &c.workers.to_string());
+    cfg.set_general("connect_timeout", "5000");
+    if after && c.change == 1 {
+        cfg.set_general("ban_time", "77");
+    }
+    let mut db = pgc::simple_pool("db", "u", "pw", c.pool_size as u32, vec![ServerDef { host: mocks[0].ip.clone(), port: mocks[0].port, role: "primary".into() }]);
+    if c.second_user {
+        db.users.push(crate::pgc::UserDef { key: "1".into(), username: "u2".into(), password: Some("pw2".into()), pool_size: 2, extra: vec![] });
+    }
+    cfg.pools.push(db);
+    let other_size = if after && c.change == 0 { 5 } else { 2 };
+    let other_pw = if after && c.change == 4 { "newpw" } else { "pw" };
+    cfg.pools.push(pgc::simple_pool("other", "u", other_pw, other_size, vec![ServerDef { host: mocks[1].ip.clone(), port: mocks[1].port, role: "primary".into() }]));
+    if after && c.change == 2 {
+        cfg.pools.push(pgc::simple_pool("added", "u", "pw", 2, vec![ServerDef { host: mocks[1].ip.clone(), port: mocks[1].port, role: "primary".into() }]));
+    }
+    cfg
+}
+
+async fn run_reload(c: &ReloadCase, ctx: &mut WorkerCtx) -> Outcome {
+    let mut o = Outcome::pass();
+    let specs = vec![BackendSpec::trust("127.0.0.1", "p0"), BackendSpec::trust("127.0.0.1", "p1")];
+    let env = match Env::start(ctx, &specs, |m| reload_config(m, c, false)).await {
+        Ok(e) => e,
+        Err(e) => {
+            o.inconclusive = Some(e);
+            return o;
+        }
+    };
+    let t0 = std::time::Instant::now();
+    let p = c.pool_size as usize;
+    o.nontrivial = c.change != 3;
+    o.label(&format!("change:{}", c.change));
+    o.label(if c.sighup { "sighup" } else { "reload_command" });
+    macro_rules! bail {
+        ($sig:expr, $d:expr) => {{
+            o.fail($sig, format!("{}; case {:?}; pgcat stderr: {}", $d, c, env.pg.stderr_tail(400)));
+            env.finish().await;
+            return o;
+        }};
+    }
+    // ---- every connection of db,u is held by a transaction
+    let mut holders = vec![];
+    for i in 0..p {
+        let mut h = match env.client(i as u32 + 1, "u", "db", "pw", &[]).await {
+            Ok(c) => c,
+            Err(e) => {
+                o.inconclusive = Some(format!("holder login: {}", e));
+                env.finish().await;
+                return o;
+            }
+        };
+        let x = prog::run_req(&mut h, &Req::Simple(vec![St::new(Sk::Begin)]), t0).await;
+        if !matches!(x.end, ReadEnd::Ready(b'T')) {
+            o.inconclusive = Some("holder BEGIN failed".into());
+            env.finish().await;
+            return o;
+        }
+        holders.push(h);
+    }
+    if c.second_user {
+        if let Ok(mut k) = env.client(20, "u2", "db", "pw2", &[]).await {
+            let _ = prog::run_req(&mut k, &Req::Simple(vec![St::new(Sk::Select)]), t0).await;
+        }
+    }
+    let mark = env.shared.len();
+    // ---- the file changes elsewhere
+    env.pg.write_config(&reload_config(&env.mocks, c, true).to_toml(env.pg.port));
+    if c.sighup {
+        env.pg.signal(libc::SIGHUP);
+        tokio::time::sleep(Duration::from_millis(300)).await;
+    } else {
+        let ok = match env.admin().await {
+            Ok(mut a) => {
+                let (m, e) = a.simple("RELOAD", wire::T_REPLY).await;
+                matches!(e, ReadEnd::Ready(_)) && !m.iter().any(|x| x.code == b'E')
+            }
+            Err(_) => false,
+        };
+        if !ok {
+            bail!("valid-reload-refused", "RELOAD of a valid file failed");
+        }
+    }
+    // ---- newcomers
+    let mut extras = vec![];
+    let mut extra_tags = vec![];
+    for i in 0..c.extra_clients as usize {
+        let mut x = match env.client(40 + i as u32, "u", "db", "pw", &[]).await {
+            Ok(c) => c,
+            Err(e) => bail!("client-not-served", format!("a new client of the untouched pool could not log in after the reload: {}", e)),
+        };
+        let t = x.tag();
+        x.send(&proto::query(&format!("{} SELECT v FROM t", t.render()))).await;
+        extra_tags.push(t);
+        extras.push(x);
+    }
+    // ---- the bound holds while everything is held
+    // (sessions are counted per pool user: the listener also serves the pool's second user)
+    let live_u = |env: &Env| -> usize {
+        let ids = env.mocks[0].live_conn_ids();
+        let log = env.log();
+        ids.iter().filter(|id| log.iter().any(|e| e.server == 0 && e.conn == **id && matches!(&e.kind, EvKind::Open { user, .. } if user == "u"))).count()
+    };
+    let deadline = std::time::Instant::now() + Duration::from_millis(450);
+    while std::time::Instant::now() < deadline {
+        let live = live_u(&env);
+        if live > p {
+            // (transient overlap is not possible here: nothing was released or broken)
+            tokio::time::sleep(Duration::from_millis(60)).await;
+            let still = live_u(&env);
+            if still > p {
+                bail!("more-sessions-than-pool-size", format!("{} live sessions on the backend of db,u (pool_size {}) while {} transactions hold every connection and {} newcomers ask for one after a reload that does not touch the pool", still, p, p, c.extra_clients));
+            }
+        }
+        tokio::time::sleep(Duration::from_millis(15)).await;
+    }
+    let log = env.log();
+    for t in &extra_tags {
+        if log.iter().any(|ev| matches!(&ev.kind, EvKind::Rx { tags, .. } if tags.contains(t))) {
+            bail!("more-sessions-than-pool-size", format!("statement {} of a newcomer was executed although all {} connections of the pool were held by open transactions", t.short(), p));
+        }
+    }
+    // ---- the open transactions go on and finish
+    for h in holders.iter_mut() {
+        let x = prog::run_req(h, &Req::Simple(vec![St::new(Sk::Select)]), t0).await;
+        if !matches!(x.end, ReadEnd::Ready(_)) || prog::check_own_rows(&x).is_err() {
+            bail!("client-not-served", format!("a transaction open across the reload got {:?} for its next statement", x.end));
+        }
+        let x = prog::run_req(h, &Req::Simple(vec![St::new(Sk::Commit)]), t0).await;
+        if !matches!(x.end, ReadEnd::Ready(b'I')) {
+            bail!("client-not-served", format!("COMMIT of a transaction open across the reload ended {:?}", x.end));
+        }
+    }
+    // ---- waiters are served
+    for (i, x) in extras.iter_mut().enumerate() {
+        let (m, e) = x.read_until_ready(wire::T_REPLY).await;
+        if !matches!(e, ReadEnd::Ready(_)) || m.iter().any(|k| k.code == b'E') {
+            bail!("client-not-served", format!("newcomer {} was not served after the holders committed: {:?} {:?}", i, e, crate::cli::errors(&m)));
+        }
+    }
+    // ---- the untouched pool kept its connections: nothing was opened on its backend
+    let log = env.log();
+    let opened: Vec<u64> = log[mark.min(log.len())..].iter().filter(|e| e.server == 0 && matches!(&e.kind, EvKind::Open { user, .. } if user == "u")).map(|e| e.conn).collect();
+    if !opened.is_empty() {
+        bail!("unchanged-pool-reopened-connections", format!("{} backend sessions were opened on the backend of db,u after a reload that does not touch that pool", opened.len()));
+    }
+    for mut h in holders {
+        h.send(&proto::terminate()).await;
+        h.close();
+    }
+    for mut x in extras {
+        x.send(&proto::terminate()).await;
+        x.close();
+    }
+    tokio::time::sleep(Duration::from_millis(30)).await;
+    let probe_case = Case { pool_size: c.pool_size, session_mode: false, workers: c.workers, cache: false, connect_timeout: None, ct_layout: 0, failure_limit: None, clients: vec![], server_kills: vec![] };
+    if let Some(pb) = capacity_probe(&env, &probe_case, t0, 100).await {
+        bail!("capacity-lost", pb);
+    }
+    if let Some(pb) = admin_idle_check(&env).await {
+        bail!("server-left-marked-active", pb);
+    }
+    env.finish().await;
+    o
 }
